@@ -23,6 +23,7 @@ FIXED = [
  ("C18", "first Write must not leak the body", "phase-3 deny keyed on a response header, handler writes without calling WriteHeader, response body access off: the implicit WriteHeader ran phase 3 and set 403, but the same Write call still sent its chunk, so the client got 403 with handler body bytes"),
  ("C18", "passes 1xx informational responses through", "handler sends WriteHeader(103) then WriteHeader(404): the interceptor treated 103 as the response, dropped 404 as superfluous and the client received 200"),
  ("C05", "closing a transaction twice must not pool", "predecessor closed twice, then two transactions alive at the same time: Close put the object into the pool twice and both NewTransaction calls returned the same object (the bystander transaction turned into the probe)"),
+ ("C19", "keeps the mandatory parts A and Z", "ctl:auditLogParts=+E on SecAuditLogParts ABCFHKZ: the record's parts became BCEFHK, the native record had no header section (transaction id) and no final boundary"),
 ]
 OPEN = [
  {"property": "C06", "status": "open",
